@@ -26,6 +26,11 @@ type Disk struct {
 	// YieldOps makes every datastore operation a scheduling point, so that other tasks interleave with
 	// multi-step datastore work such as a migration
 	YieldOps bool
+	// FailAt (>0): the FailAt-th datastore operation from now on (reads, queries and writes alike) and the FailLen-1
+	// operations after it fail with an I/O error (disk fault injection)
+	FailAt, FailLen int
+	opCount         int
+	FaultsFired     int
 	// Reads/Writes by key prefix are counted for oracles that must show "did not touch"
 	Touched []string
 }
@@ -36,6 +41,21 @@ func (d *Disk) touch(op, key string) {
 		simrt.Yield("disk." + op)
 	}
 }
+
+// faulty counts one datastore operation and reports whether the injected I/O fault hits it.
+func (d *Disk) faulty() bool {
+	if d.FailAt <= 0 {
+		return false
+	}
+	d.opCount++
+	if d.opCount >= d.FailAt && d.opCount < d.FailAt+d.FailLen {
+		d.FaultsFired++
+		return true
+	}
+	return false
+}
+
+const errDiskIO = diskErr("simdisk: injected I/O error")
 
 type WriteOp struct {
 	Key    string
@@ -74,6 +94,9 @@ func (d *Disk) commit(e WriteEntry) error {
 		d.FailWrites--
 		return errDisk
 	}
+	if d.faulty() {
+		return errDiskIO
+	}
 	d.apply(e)
 	d.Log = append(d.Log, e)
 	if d.OnCommit != nil {
@@ -90,6 +113,9 @@ const errDisk = diskErr("simdisk: injected write error")
 
 func (d *Disk) Get(ctx context.Context, k ds.Key) ([]byte, error) {
 	d.touch("get", k.String())
+	if d.faulty() {
+		return nil, errDiskIO
+	}
 	v, ok := d.m[k.String()]
 	if !ok {
 		return nil, ds.ErrNotFound
@@ -98,6 +124,9 @@ func (d *Disk) Get(ctx context.Context, k ds.Key) ([]byte, error) {
 }
 func (d *Disk) Has(ctx context.Context, k ds.Key) (bool, error) {
 	d.touch("has", k.String())
+	if d.faulty() {
+		return false, errDiskIO
+	}
 	_, ok := d.m[k.String()]
 	return ok, nil
 }
@@ -110,6 +139,9 @@ func (d *Disk) GetSize(ctx context.Context, k ds.Key) (int, error) {
 }
 func (d *Disk) Query(ctx context.Context, q dsq.Query) (dsq.Results, error) {
 	d.touch("query", q.Prefix)
+	if d.faulty() {
+		return nil, errDiskIO
+	}
 	keys := make([]string, 0, len(d.m))
 	for k := range d.m {
 		if strings.HasPrefix(k, q.Prefix) {
